@@ -162,7 +162,7 @@ def gen_create(ctx, ver, actor, want_mask=0):
     alg = r.choice([3, 3, 3, 2, 0x10, 0x11])
     ln = r.choice(SYM_SIZES[alg])
     if r.random() < 0.04:
-        ln = r.choice([0, 7, 100, 512])
+        ln = r.choice([0, 7, 100, 512, 56, 112, 168, 40, 448])
     at = [A('Cryptographic Algorithm', alg), A('Cryptographic Length', ln)]
     at += common_attrs(ctx, ver, 'SymmetricKey', want_mask=want_mask)
     if r.random() < 0.04:
